@@ -35,9 +35,29 @@ CLAIMS = {
             "§7 C20", TRUST + "server role here; client role added by the E2 engine"),
 }
 
+CLAIMS.update({
+    "C03": ("e2-client", "model_checking",
+            "Client.tla + ModbusPdu.tla (EncodeRequest / ClientRequestValid) evaluated by TLC judge every recorded execution of the production request loop: the request lattice (kind x start x count / value-list length incl. 0, limit+-1, overflow, > 65535 values) is submitted through Channel and CallbackSession on TCP and RTU framing; each request must be transmitted as exactly the TLC-computed frame or complete with an error and no tx; TxBounded is an invariant on every state",
+            "§7 C03", TRUST + "AddressRange built with its constructor; FfiChannel path covered by the C18 engine"),
+    "C04": ("e2-client", "model_checking",
+            "for every request kind and a range lattice the reply classes (correct, other function bytes, exceptions with all/sampled codes, truncated / extended, byte-count lies, echo variations) are delivered to the production loop; the value handed to the future / callback must be exactly DecodeResponse(request, pdu) as evaluated by TLC",
+            "§7 C04", TRUST + "reply space covered by classes + sampling"),
+    "C10": ("e2-client", "model_checking",
+            "Client.tla is an explicit state machine of the channel task (queue, blocked senders, in-flight request, timers, promise drops); random interleavings of submissions, replies, timeouts, I/O faults, enable/disable, decode, shutdown, handle drops and abort are recorded under virtual time and validated by TLC: each completion must be the output of a specification step (class included), each request completes exactly once (a second completion has no step, a missing one blocks the next scenario boundary)",
+            "§7 C10", TRUST + "tokio paused clock; lock-step harness (inputs only at quiescence)"),
+    "C11": ("e2-client", "model_checking",
+            "transaction-id discipline of Client.tla at TxMod = 65536 validated on recorded runs: stale / future / duplicate / unsolicited frames at every relation to the outstanding request, invalid requests that still consume an id, FIFO transmission with one outstanding request (invariant OneOutstanding), and (thorough) 66 000 requests across the 16-bit wrap",
+            "§7 C11", TRUST + "tx ids of scripted replies are derived mechanically from the last transmitted frame"),
+    "C12": ("e2-client", "model_checking",
+            "virtual time makes 'exactly at the deadline' observable: Timeout is enabled iff now >= deadline and every input/quiescence event requires that no task step is enabled, so an early, late or extended timeout, a missed drop after N consecutive timeouts or a counter that is not restarted is a rejection; whole and split replies at deadline-1/0/+1, foreign frames that must not move the deadline, outcome sequences x limits, partial frame across reconnect",
+            "§7 C12", TRUST + "time advances only by scripted ticks"),
+})
+
 ENGINES = [
     {"name": "e1-session", "path": "harness/src/bin/e1_session.rs + spec/ServerSessionTrace.tla",
      "kind_free_text": "production server session (SessionTask::run) over a scripted in-memory stream under virtual time; ndjson trace validated by TLC against ServerRef.tla"},
+    {"name": "e2-client", "path": "harness/src/bin/e2_client.rs + spec/Client.tla + spec/ClientTrace.tla",
+     "kind_free_text": "production client request loop (ClientLoop::run via verif::ClientSession) under virtual time; ndjson trace validated by TLC against the Client.tla state machine"},
 ]
 
 
